@@ -279,6 +279,15 @@ def source_tie(ctx, prop, specs):
             ctx.violation('tie:' + prop, 'source tie lemma %s depends on non-whitelisted axioms %s' % (l, extra), no_input=True)
             return False
         ctx.assumptions[l] = axs
+    if ctx.tier == 'thorough' and not os.environ.get('VERIF_NO_COQCHK'):
+        # the independent checker on the compiled tie file and everything it loads
+        # (the case directory lies under the TV load path: the compiled library is TV.cases.p<pid>.Tie_<prop>)
+        rc2, out2 = sh('timeout 1500 coqchk -silent -o -Q %s TV TV.cases.%s.Tie_%s' % (COQ, os.path.basename(CASES), prop),
+                       cwd=CASES, timeout=1600)
+        ctx.extra['coqchk_tie'] = out2[-2000:]
+        if rc2 != 0:
+            ctx.violation('tie:' + prop, 'coqchk rejects the compiled tie file Tie_%s.vo:\n%s' % (prop, out2[-1500:]), no_input=True)
+            return False
     ctx.discharged.extend(lemmas)
     ctx.notes.append('source tie: %s regenerated from source and proved equal to the model kernels (%s)'
                      % (', '.join(s[1] for s in specs), ', '.join(lemmas)))
